@@ -24,8 +24,10 @@
 #define NO (sizeof(OG) - 1)
 #define MAXE 4
 
-static const char *GNAME[3] = { "_none_", "A", "B" };
-static const char *KNAME[2] = { "x", "y" };
+/* section 1 is "AB", section 2 is "A" (a proper prefix), keys "x" and "xy": comparisons
+ * that look at a prefix only are told apart */
+static const char *GNAME[3] = { "_none_", "AB", "A" };
+static const char *KNAME[2] = { "x", "xy" };
 static const char *BVAL[MAXE] = { "b0", "b1", "b2", "b3" };
 static const char *OVAL[MAXE] = { "o0", "o1", "o2", "o3" };
 
@@ -34,7 +36,7 @@ unsigned char in_bk[MAXE], in_ok[MAXE];
 
 struct abs_entry { int g, k; const char *val; };
 
-static econf_file *build(const char *shape, size_t n, const unsigned char *kid, const char **vals, int kind)
+static econf_file *build(const char *shape, size_t n, const unsigned char *kid, const char **vals, int kind, int extra_group)
 {
   econf_file *ef = calloc(1, sizeof(econf_file));
   __CPROVER_assume(ef != NULL);
@@ -55,6 +57,11 @@ static econf_file *build(const char *shape, size_t n, const unsigned char *kid, 
   for (size_t i = 0; i < n; i++) {
     int g = shape[i] - '0';
     if (!gp[g]) { gp[g] = strdup(GNAME[g]); ef->groups[ef->group_count++] = gp[g]; }
+  }
+  if (extra_group && !gp[extra_group]) {
+    /* a section header without keys (parsed files list it) */
+    gp[extra_group] = strdup(GNAME[extra_group]);
+    ef->groups[ef->group_count++] = gp[extra_group];
   }
   ef->groups[ef->group_count] = NULL;
   for (size_t i = 0; i < alloc; i++) {
@@ -77,8 +84,8 @@ static econf_file *build(const char *shape, size_t n, const unsigned char *kid, 
   return ef;
 }
 
-static int gid_of(const char *g) { return g[0] == '_' ? 0 : g[0] == 'A' ? 1 : 2; }
-static int kid_of(const char *k) { return k[0] == 'x' ? 0 : 1; }
+static int gid_of(const char *g) { return g[0] == '_' ? 0 : g[1] == 'B' ? 1 : 2; }
+static int kid_of(const char *k) { return k[1] == 0 ? 0 : 1; }
 
 /* first definition of (g,k) in a concrete-shape list, or -1 */
 static int first_def(const char *shape, size_t n, const unsigned char *kid, int g, int k)
@@ -109,8 +116,11 @@ int main(void)
     for (size_t j = i + 1; j < NO; j++)
       __CPROVER_assume(!(OG[i] == OG[j] && in_ok[i] == in_ok[j]));
 
-  econf_file *base = build(BG, NB, in_bk, BVAL, B_KIND);
-  econf_file *over = build(OG, NO, in_ok, OVAL, O_KIND);
+#ifndef B_EXTRA_GROUP
+#define B_EXTRA_GROUP 0
+#endif
+  econf_file *base = build(BG, NB, in_bk, BVAL, B_KIND, B_EXTRA_GROUP);
+  econf_file *over = build(OG, NO, in_ok, OVAL, O_KIND, 0);
   /* snapshot of the inputs for the non-destructiveness clause */
   struct file_entry *b_arr = base->file_entry, *o_arr = over->file_entry;
   struct file_entry b_copy[MAXE + 8], o_copy[MAXE + 8];
